@@ -191,6 +191,12 @@ func execRun(P *program, r harnessRun, workers int, defaultBudget time.Duration)
 		budget = time.Duration(r.BudgetS) * time.Second
 	}
 	ex := newExplorer(P, r.Harness, fn, budget)
+	if sd := os.Getenv("VERIF_SEED"); sd != "" {
+		ex.seed, _ = strconv.Atoi(sd)
+		if ex.seed < 0 {
+			ex.seed = -ex.seed
+		}
+	}
 	t0 := time.Now()
 	ex.run(workers)
 	return &runResult{run: r, ex: ex, wall: time.Since(t0)}, nil
